@@ -53,6 +53,7 @@ def run(report, db, tier):
     report.floor('login/connect write sites checked', n, 4)
     encryption_arm(report, db, M, P, fi, arms)
     compression_arm(report, db, M, fi, arms)
+    switches_quiet(report, db, S, M, cg, fi, paths)
     plugin_arm(report, db, M, P, fi, arms)
     success_arm(report, db, M, fi, arms)
     disconnect_arm(report, db, S, M, fi, arms)
@@ -420,6 +421,34 @@ def compression_arm(report, db, M, fi, arms):
                                  stores.items())})
 
 
+def switches_quiet(report, db, S, M, cg, fi, paths, rid='R10.2q'):
+    """the threshold applies to *everything* that follows; the cipher to
+    everything after the encryption response"""
+    R = report.rule(rid, 'a change of framing (compression, cipher) applies '
+                    'to everything that follows: the arm writes nothing '
+                    'before the switch but the encryption response')
+    me = sy(fi.params[0])
+    opts = at(me, 'connection', 'options')
+    conn = at(me, 'connection')
+    shared.switch_is_quiet(
+        report, R, db, S, M, cg, fi, paths, 'set compression',
+        lambda e: struct(e.base) == opts and e.attr in (
+            'compression_threshold', 'compression_enabled'),
+        what='compression threshold')
+    wp = M.conn_method('write_packet')
+    shared.switch_is_quiet(
+        report, R, db, S, M, cg, fi, paths, 'encryption request',
+        lambda e: struct(e.base) == conn and e.attr in (
+            'socket', 'file_object'),
+        allowed=lambda e: e.calls(wp) and any(
+            is_packet_of(db, a, 'EncryptionResponsePacket') for a in e.args),
+        what='cipher')
+
+
+def is_packet_of(db, t, clsname):
+    return t[0] == 'obj' and t[2].split('.')[-1] == clsname
+
+
 def plugin_arm(report, db, M, P, fi, arms):
     R = report.rule('R10.3', 'plugin arm: exactly one unsuccessful response '
                     'carrying the request id')
@@ -674,8 +703,8 @@ def stateless(report, db, M, fi, paths):
         report.ok(R, 'react reads only self.connection')
 
 
-def transport_lookup(report, db, cg, M):
-    R = report.rule('R10.9', 'the transport is looked up per packet: every '
+def transport_lookup(report, db, cg, M, rule_id='R10.9'):
+    R = report.rule(rule_id, 'the transport is looked up per packet: every '
                     'read uses connection.file_object as it is at that '
                     'moment, so the cipher wrapper installed by the login '
                     'reaction applies to the very next frame')
